@@ -16,6 +16,8 @@
   built-in default);
 * `lay`: clear and encrypted video tracks whose stored init segments have permuted / extended
   moov and mvex layouts (c10_layout.py);
+* `lu1`..`lu6`: streams whose STORED licence URLs cover the URL content classes (percent escapes, `+`,
+  `& ; =`, place holders incl. `{kids}`, unicode, long, stray braces);
 * extra rows in the `key` table (computed and non-computed keys) for the ClearKey
   licence checks;
 * a multi-period stream `c10mps` (period 1 = bbb, period 2 = tears, period 3 = mk).
@@ -50,6 +52,16 @@ EXTRA_KEYS = [
     (bytes.fromhex("a1a2a3a4b1b2c1c2d1d2e1e2e3e4e5e6"), None),
 ]
 
+# licence URLs stored per stream (Stream.playready_la_url / marlin_la_url), one per URL content class
+STORED_LA_URLS = {
+    "lu1": "https://lic.example.com/pr/rightsmanager.asmx?cfg=%7Bab%7D&token=a%2Bb+c%26d&path=%2Fx%2Fy",   # %xx escapes and +
+    "lu2": "https://lic.example.com/pr?cfg={cfgs}&kid={default_kid}&pct=%25%20%2F&amp=a&b;c=d==e",          # place holders, & ; =
+    "lu3": "https://l\u00efc.example.com/\u8def\u5f84/\u00e9?q=\u00fc+1;x=2&y==3#\U0001f511",                      # unicode / IDN
+    "lu4": "https://lic.example.com/long/" + "seg%2Bment+%26/" * 90 + "?cfg={cfgs}",                        # long
+    "lu5": "http://lic.example.com/a+b?c=d+e&f=%26%3D%3B&g={foo}{0}{{x}}#frag%23",                          # + and stray braces
+    "lu6": "https://lic.example.com/k?kids={kids}&d={default_kid}",                                        # {kids}
+}
+
 _ENV = None
 
 
@@ -67,6 +79,7 @@ class Env:
         self._add_split_key_stream()
         self._add_no_la_stream()
         self.layout_tracks = self._add_layout_stream()
+        self._add_stored_la_streams()
         self._add_extra_keys()
         self.mps_periods = self._add_mps()
 
@@ -115,6 +128,22 @@ class Env:
             st.playready_la_url = None
             st.marlin_la_url = None
             m.db.session.commit()
+
+    def _add_stored_la_streams(self):
+        """streams lu1..lu6: encrypted bbb tracks, each with its own stored PlayReady / Marlin licence URL"""
+        for directory, url in STORED_LA_URLS.items():
+            self._add_multikey_stream(directory, {"v6_enc": [KID_A], "a1_enc": [KID_A]})
+            with self.app.ctx() as m:
+                st = m.Stream.get(directory=directory)
+                st.playready_la_url = url
+                st.marlin_la_url = url.replace("https://", "ms3://").replace("http://", "ms3://")
+                m.db.session.commit()
+
+    def stored_la_urls(self) -> dict[str, str | None]:
+        """stream directory -> stored PlayReady licence URL, read straight from the table"""
+        with self.app.ctx() as m:
+            rows = m.db.session.execute(m.db.text("SELECT directory, playready_la_url FROM Stream")).all()
+        return {d: u for d, u in rows}
 
     def _add_layout_stream(self):
         """stream `lay`: copies of bbb_v6 (clear) and bbb_v6_enc (encrypted) whose stored init segments
